@@ -305,7 +305,7 @@ func runScript(sid int, sc script, unit time.Duration) ([]event, error) {
 		return nil, err
 	}
 	r.exp = exp
-	if err := exp.Start(context.Background(), componenttest.NewNopHost()); err != nil {
+	if err := startC(func(sc context.Context) error { return exp.Start(sc, componenttest.NewNopHost()) }); err != nil {
 		return nil, err
 	}
 	items := []int64{1, 2, 3}
@@ -421,4 +421,12 @@ func main() {
 		fail(err)
 	}
 	o.Close()
+}
+
+// startC calls a component's Start with a context that is cancelled as soon as Start has returned: component.Component
+// says that context "will be cancelled soon", so nothing that has to outlive Start may depend on it.
+func startC(start func(context.Context) error) error {
+	ctx, cancel := context.WithCancel(context.Background())
+	defer cancel()
+	return start(ctx)
 }
